@@ -141,6 +141,9 @@ where
     })
 }
 
+/// how long a flow whose local side has closed waits for the server to close the connection
+const CLOSE_GRACE: Duration = Duration::from_secs(10);
+
 async fn relay_tcp<I, O>(local_client: I, client_server: O) -> relay::Result
 where
     I: Sink<BytesMut, Error = anyhow::Error> + Stream<Item = Result<BytesMut>>,
@@ -151,7 +154,13 @@ where
 
     let l_c_s = async {
         match l_c.forward(c_s).await {
-            Ok(_) => Err::<(), _>(relay::Result::Close(End::Local, End::Client)),
+            Ok(_) => {
+                // everything the local side wrote is on its way and the sink is closed: let the server read it to the end
+                // and close the connection (which ends the other pump and the flow). Closing now, possibly with unread
+                // inbound data such as TLS session tickets, would reset the connection and destroy what is still in flight.
+                time::sleep(CLOSE_GRACE).await;
+                Err::<(), _>(relay::Result::Close(End::Local, End::Client))
+            }
             Err(e) => Err(relay::Result::Err(End::Local, End::Client, e)),
         }
     };
